@@ -478,6 +478,11 @@ impl RefState {
             Step::Update { lr, params } => {
                 self.update(*lr, params);
             }
+            Step::Copy { h } => {
+                let node = self.node_of(*h).clone();
+                let n = self.push_node(node.t.detached(), vec![], None, None, node.exact, false);
+                self.handles.push(Some(Handle { node: n, tracked: false, keep: false }));
+            }
             Step::ProbeSole { h } => {
                 // the array is rebuilt with a buffer of its own
                 let n = self.handle(*h).node;
